@@ -12,8 +12,8 @@
    - proof operators (crypto/merkle/proof_op.go ProofRuntime.VerifyValue / VerifyAbsence) and the
      configured KeyPathFunc are the relations [verify_value], [verify_absence], [key_path].
 
-   Seven repairs are modelled as present (see /verif/fixes; F58, in crypto/merkle KeyPath.String,
-   is described at the key-path functions below):
+   Eight repairs are modelled as present (see /verif/fixes; F58, in crypto/merkle KeyPath.String,
+   and F62, in crypto/merkle ValueOp.Run, are described at the key-path and ValueOp functions below):
    - F11: BlockResults compares NewResults(TxsResults).Hash() with the next header's
      LastResultsHash (the unrepaired code hashed begin/end-block events into it and refused
      every honest answer);
@@ -441,6 +441,53 @@ Definition relay_query (o : oracle) (has_kpfn : bool) (path : bytes) (r : rquery
          | None => verify_absence (q_ops r) (h_app_hash (lb_header l)) (q_key r)
          end)
       end
+  end.
+
+(* ------------------------------------------------------------------ simple-Merkle value proofs
+   crypto/merkle/proof_value.go ValueOp.Run and proof_op.go ProofOperators.Verify, for a proof
+   made of ValueOps only (what ProofRuntime.VerifyValue runs for the "simple:v" operators of
+   merkle.DefaultProofRuntime).
+   Repair F62 is modelled as present: ValueOp.Run fails when no root hash can be computed from
+   the operator's (index, total, aunts) - the unrepaired code handed Go's nil on, and the final
+   bytes.Equal(root, nil) accepted ANY value against an empty root (an empty AppHash). *)
+Record vop := { vo_key : bytes; vo_proof : proof }.
+
+(* crypto/merkle encodeByteSlice *)
+Definition enc_bytes (b : bytes) : bytes := uvarint (Z.of_nat (length b)) ++ b.
+(* the leaf a ValueOp proves: <key, hash of the value> *)
+Definition kv_leaf (k value : bytes) : bytes := enc_bytes k ++ enc_bytes (H value).
+
+(* ValueOp.Run; None = error *)
+Definition vop_run (op : vop) (value : bytes) : option bytes :=
+  let p := vo_proof op in
+  if negb (bytes_eqb (leaf_hash H (kv_leaf (vo_key op) value)) (pf_leaf_hash p)) then None
+  else from_aunts H (pf_index p) (pf_total p) (pf_leaf_hash p) (rev (pf_aunts p)).   (* fix F62: None is an error *)
+
+(* the loop of ProofOperators.Verify: [rkeys] = the keys of the key path, last first; an operator
+   with a non-empty key must name the last remaining key *)
+Fixpoint vops_run (ops : list vop) (rkeys : list bytes) (arg : bytes) : option (list bytes * bytes) :=
+  match ops with
+  | [] => Some (rkeys, arg)
+  | op :: r =>
+    let step (rk : list bytes) :=
+      match vop_run op arg with Some a => vops_run r rk a | None => None end in
+    match vo_key op with
+    | [] => step rkeys
+    | _ => match rkeys with
+           | [] => None
+           | lk :: rk => if bytes_eqb lk (vo_key op) then step rk else None
+           end
+    end
+  end.
+
+(* ProofOperators.VerifyValue(root, keypath, value) *)
+Definition vops_verify (ops : list vop) (root : bytes) (keypath : bytes) (value : bytes) : bool :=
+  match key_path_to_keys keypath with
+  | None => false
+  | Some keys => match vops_run ops (rev keys) value with
+                 | Some ([], a) => bytes_eqb root a
+                 | _ => false
+                 end
   end.
 
 (* Client.ConsensusParams *)
